@@ -92,8 +92,8 @@ def parse_cases_out(text):
             cls = f.get("class")
             m = re.search(r" impl=(.*?) model=(.*)$", line)
             impl, model = (m.group(1), m.group(2)) if m else ("", "")
-            if cls in ("KBD", "DEVS"):
-                ar = 2 if cls == "KBD" else 3
+            if cls in ("KBD", "DEVS", "KBD_OUTSIDE_KERNEL_FORMAT", "DEVS_OUTSIDE_KERNEL_FORMAT"):
+                ar = 2 if cls.startswith("KBD") else 3
                 diffs.append({"engine": ENGINE, "class": cls,
                               "input": {"family": f.get("family"), "text": unhex(f.get("text", "")), "text_hex": f.get("text", "")},
                               "impl": dec_result(impl, ar), "model": dec_result(model, ar)})
@@ -161,7 +161,7 @@ def parse_ns_out(text):
             inp["what"] = what
             inp["observation"] = {"open": "which nodes the run opened (inotify)", "log": "the verbose log", "value": "return value of the public function",
                                   "listout": "stdout of list_keyboards"}.get(f.get("basis"), f.get("basis"))
-            diffs.append({"engine": ENGINE, "class": "SELECT", "basis": f.get("basis"), "input": inp, "impl": di, "model": dm})
+            diffs.append({"engine": ENGINE, "class": f.get("class") or "SELECT", "basis": f.get("basis"), "input": inp, "impl": di, "model": dm})
         elif line.startswith("HIT "):
             f = kv(line)
             m = re.search(r" observed=(.*?) expected=(.*)$", line)
